@@ -1043,6 +1043,9 @@ pub struct BreakpointRegistry {
     disabled_breakpoints: HashMap<Address, UninitBreakpoint>,
     /// List of deferred breakpoints, refresh all time when shared library loading.
     deferred_breakpoints: Vec<DeferredBreakpoint>,
+    /// Addresses that parked breakpoints had while their library was loaded (the address that
+    /// a user of the registry knows) with the keys of these breakpoints in a non-active list.
+    parked_aliases: HashMap<RelocatedAddress, Address>,
 }
 
 impl BreakpointRegistry {
@@ -1117,6 +1120,13 @@ impl BreakpointRegistry {
         &mut self,
         addr: Address,
     ) -> Result<Option<BreakpointView<'static>>, Error> {
+        // a parked breakpoint is known to the caller by the address it had before the unload
+        let addr = match addr {
+            Address::Relocated(rel) if !self.breakpoints.contains_key(&rel) => {
+                self.parked_aliases.remove(&rel).unwrap_or(addr)
+            }
+            _ => addr,
+        };
         if let Some(brkpt) = self.disabled_breakpoints.remove(&addr) {
             return Ok(Some(brkpt.into()));
         }
@@ -1177,6 +1187,8 @@ impl BreakpointRegistry {
                 errors.push(e);
             }
         }
+        self.parked_aliases
+            .retain(|_, key| self.disabled_breakpoints.contains_key(key));
         errors
     }
 
@@ -1203,6 +1215,8 @@ impl BreakpointRegistry {
             let Some(global_addr) = brkpt.place.as_ref().map(|place| place.address) else {
                 continue;
             };
+            self.parked_aliases
+                .insert(addr, Address::Global(global_addr));
             self.add_uninit(UninitBreakpoint::new_inherited(
                 Address::Global(global_addr),
                 brkpt,
